@@ -337,3 +337,27 @@ Proof.
     destruct (one_task_per_stage_shard g inv mc fixed init env st roots Hwf Hinit Hc id t Hid Ht) as (_ & Hsh & _).
     exact (shuffle_wiring g inv fixed init st t i P Hsh j d td Hd Htd S Hf).
 Qed.
+
+(* ================= the code's configuration: no guard ================= *)
+(* With the re-shuffle tasks over a Result repaired, every shuffle dependency of
+   every new pipeline task is wired as the property demands, Result producers
+   included. *)
+Theorem shuffle_wiring_code : forall g inv mc init env st roots,
+  wf_dag g -> wf_init g init -> compile_top g inv mc init env = COk st roots ->
+  forall id t, List.length init <= id -> nth_error (sstore st) id = Some t ->
+    reshuffle_task init t
+    \/ exists i, nresult (get_node g i) = None /\ pipeline (S (List.length g)) g i = Some (tslices t)
+         /\ (tdeps t = []
+             \/ (List.length (tdeps t) = List.length (ndeps (get_node g (last (tslices t) i)))
+                 /\ forall j d td,
+                      nth_error (ndeps (get_node g (last (tslices t) i))) j = Some d ->
+                      nth_error (tdeps t) j = Some td -> dshuffle d = true ->
+                      wired_shuffle g inv init (sstore st) t (get_node g (last (tslices t) i)) d td)).
+Proof.
+  intros g inv mc init env st roots Hwf Hinit Hc id t Hid Ht.
+  destruct (shuffle_wiring_top g inv mc result_shuffle_fixed init env st roots Hwf Hinit Hc id t Hid Ht)
+    as [R|(i & A & B & W)]; [now left|right].
+  exists i. split; [auto|]. split; [auto|]. destruct W as [W|[L W]]; [now left|right].
+  split; [auto|]. intros j d td Hd Htd S. apply (W j d td Hd Htd S). left. exact code_result_shuffle_fixed.
+Qed.
+
